@@ -51,4 +51,33 @@ CLAIMS = {
                 "is part of C05/C06 (not claimed yet).",
         "technique": "Lean 4 theorem over executable model + differential correspondence",
     },
+    "C10": {
+        "text": "Theorems over the transcription of the six accept functions: C10_mono_thr (monotone in the threshold), C10_accept_sound "
+                "(acceptance implies statistic >= threshold), C10_radius_iff / C10_diameter_iff, C10_singleton, C10_tol_iff, "
+                "C10_slack_nonneg / _mono / _zero, C10_mono_tol, C10_legacy, C10_never, C10_dispatch. Correspondence: the real accept "
+                "objects called twice each in shuffled order across instances vs the (pure) model; laws re-evaluated on the real functions.",
+        "note": TB + "np.exp is a parameter (E n = exp(-1e-3 n)) assumed antitone with off = E 1000; both are checked on n = 0..6001. "
+                "Statistics are NaN-free because new_n >= 2 in every merge.",
+        "technique": "Lean 4 theorem over executable model + differential correspondence",
+    },
+    "C11": {
+        "text": "C11_exact: jt_isim_from_sum (transcribed with its uint64 wrap-around and float rounding points) equals the correctly "
+                "rounded exact rational for n*sum(k) < 2^52; C11_no_wrap: no uint64 intermediate wraps below 2^64; C11_empty, C11_pair "
+                "(two fingerprints: Tanimoto), C11_perm_rows / _cols at every magnitude, C11_wrappers, C11_compl, C11_range, C11_defined. "
+                "Correspondence exhaustive for n <= 5 (6), width <= 3 (4), random up to n*sum(k) < 2^63, all wrappers packed/unpacked.",
+        "note": TB + "PARTIAL: between 2^52 and 2^63 plain equality is false (one-ulp deviations exist); only absence of wrap-around and the "
+                "invariances are proved there, the ulp distance is measured by the oracle (<= 64 ulp required, max observed in evidence). "
+                "Whichever implementation the import switch selects: only the NumPy fallback exists in this sandbox (C13 ties the kernels).",
+        "technique": "Lean 4 theorem over executable model + differential correspondence",
+    },
+    "C12": {
+        "text": "C12_jt (packed Tanimoto = rnd(|A and B| / |A or B|) for non-empty union), C12_jt_empty, C12_jt_range, C12_symm, C12_matrix, "
+                "C12_word_byte (uint64-view popcount = byte popcount), C12_packed, C12_unpack_pack / C12_pack_unpack for every feature "
+                "count, C12_centroid (majority, ties set), C12_medoid (valid index minimising complementary similarity), C12_dissim "
+                "(valid indices, similarities to exactly those rows). Correspondence exhaustive for widths <= 4 (6) bits over all pairs, "
+                "random widths 1..4096, misaligned buffers.",
+        "note": TB + "Memory alignment is not expressible in the model (the word view is alignment-free there): exercised by the harness only. "
+                "np.packbits / unpackbits / bitwise_count are trusted to be what the model's pack/unpack/popcount transcribe (tied by correspondence).",
+        "technique": "Lean 4 theorem over executable model + differential correspondence",
+    },
 }
